@@ -4,6 +4,8 @@ import (
 	"context"
 	"time"
 
+	"github.com/pkg/errors"
+
 	"github.com/tikv/client-go/v2/kv"
 	"github.com/tikv/client-go/v2/tikvrpc"
 )
@@ -146,5 +148,43 @@ func ZZ_C06_failed_commit() {
 			zzAssert(!cl.lockedBy(k, start), "c06.successful-commit-leaves-no-lock")
 			zzAssert(cl.committed(k, start), "c06.successful-commit-commits-every-key")
 		}
+	}
+}
+
+type zzSchemaChanged struct{}
+
+func (zzSchemaChanged) CheckBySchemaVer(txnTS uint64, startSchemaVer SchemaVer) (*RelatedSchemaChange, error) {
+	return nil, errors.New("zz: schema changed")
+}
+
+// ZZ_C06_commit_fails_early: a pessimistic transaction that holds locks and whose
+// Commit fails with a definite error BEFORE anything is prewritten (the oracle
+// or the schema check fails while preparing an async-commit / 1PC / plain commit)
+// still releases every lock.
+func ZZ_C06_commit_fails_early() {
+	s, cl := zzNewStoreTS([][]byte{[]byte("m")}, 0, false)
+	defer s.close()
+	txn := zzBegin(s)
+	txn.SetPessimistic(true)
+	mode := zzChoice("mode", 4) // 0 plain 2PC, 1 async commit, 2 1PC, 3 both
+	txn.SetEnableAsyncCommit(mode == 1 || mode == 3)
+	txn.SetEnable1PC(mode == 2 || mode == 3)
+	start := txn.StartTS()
+	zzAssume(zzC06LockCall(s, txn, zzChoice("keys", 3)) == nil)
+	_ = txn.Set(zzC06Keys[0], []byte("v"))
+	switch zzChoice("failure", 2) {
+	case 0:
+		s.orc.fail = true // every timestamp request from now on fails
+	case 1:
+		txn.SetSchemaLeaseChecker(zzSchemaChanged{})
+	}
+	err := txn.Commit(context.Background())
+	s.orc.fail = false
+	s.wg.Wait()
+	zzAssert(!cl.unmodelled, "c06.early.only-modelled-commands")
+	zzAssert(err != nil, "c06.early.commit-fails")
+	zzAssert(!cl.committed(zzC06Keys[0], start), "c06.early.failed-commit-commits-nothing")
+	for _, k := range zzC06Keys {
+		zzAssert(!cl.lockedBy(k, start), "c06.early.no-lock-left-behind")
 	}
 }
